@@ -218,6 +218,7 @@ func main() {
 		}
 	}
 	before, after := false, false
+	preShape := "PreUnknown"
 	// functions that (transitively) run the EVM: evm.Create / evm.Call on a *vm.EVM parameter
 	runsEVM := map[*ast.FuncDecl]bool{}
 	for iter := 0; iter < 3; iter++ {
@@ -291,6 +292,61 @@ func main() {
 		})
 		if setN != token.NoPos && firstExec != token.NoPos && setN < firstExec && unconditional[setN] {
 			before = true
+			preShape = "PreResetAlways"
+		}
+		// … or, at the top level before the EVM runs, `if <To()==nil> { SetNonce(From(), Nonce()) } else { SetNonce(From(), Nonce()+1) }`
+		// (either spelling of the condition): the nonce is reset for contract creations, calls run with the final nonce
+		if !before && firstExec != token.NoPos {
+			for _, st := range fd.Body.List {
+				ifs, ok := st.(*ast.IfStmt)
+				if !ok || ifs.Pos() > firstExec || ifs.Else == nil || ifs.Init != nil {
+					continue
+				}
+				els, ok := ifs.Else.(*ast.BlockStmt)
+				if !ok {
+					continue
+				}
+				c := sc.comparison(ifs.Cond)
+				if !c.ok || !((strings.HasSuffix(c.lhs, ".To()") && c.rhs == "nil") || (strings.HasSuffix(c.rhs, ".To()") && c.lhs == "nil")) {
+					continue
+				}
+				createBr, callBr := ifs.Body, els
+				switch c.op {
+				case token.EQL:
+				case token.NEQ:
+					createBr, callBr = els, ifs.Body
+				default:
+					continue
+				}
+				// the single SetNonce(From(), ·) of a branch, as (is Nonce(), is Nonce()+1)
+				setIn := func(b *ast.BlockStmt) (n, n1 bool, count int) {
+					for _, bs := range b.List {
+						es, ok := bs.(*ast.ExprStmt)
+						if !ok {
+							continue
+						}
+						call, ok := es.X.(*ast.CallExpr)
+						if !ok || calleeName(call) != "SetNonce" || len(call.Args) != 2 || !strings.HasSuffix(sc.canon(call.Args[0]), ".From()") {
+							continue
+						}
+						count++
+						a1 := sc.canon(call.Args[1])
+						if strings.HasSuffix(a1, ".Nonce()") {
+							n = true
+						}
+						if base, ok := minusOne(a1); ok && strings.HasSuffix(base, ".Nonce()") {
+							n1 = true
+						}
+					}
+					return
+				}
+				cn, _, cc := setIn(createBr)
+				_, kn1, kc := setIn(callBr)
+				if cn && cc == 1 && kn1 && kc == 1 {
+					before = true
+					preShape = "PreResetCreateSuccCall"
+				}
+			}
 		}
 		if setN1 != token.NoPos && lastExec != token.NoPos && setN1 > lastExec {
 			after = true
@@ -325,8 +381,8 @@ func main() {
 	fmt.Printf("  f_loader := %s;\n", loader)
 	fmt.Printf("  f_inc_check := %s;\n  f_inc_reads_account_sequence := %s;\n  f_inc_sets_plus_one := %s;\n", incCheck, CoqBool(incReads), CoqBool(incPlusOne))
 	fmt.Printf("  f_sig_signer_of_this_chain := %s;\n  f_cantransfer_signer_of_this_chain := %s;\n  f_sig_rejects_on_error := %s;\n  f_sig_sets_from := %s;\n", CoqBool(sigChain), CoqBool(ctChain), CoqBool(sigRejects), CoqBool(sigSetsFrom))
-	fmt.Printf("  f_msg_london_signer_of_this_chain := %s;\n  f_bracket_before := %s;\n  f_bracket_after := %s;\n  f_event_create_address_from_nonce := %s |}.\n",
-		CoqBool(msgSigner), CoqBool(before), CoqBool(after), CoqBool(createAddr))
+	fmt.Printf("  f_msg_london_signer_of_this_chain := %s;\n  f_pre := %s;\n  f_bracket_after := %s;\n  f_event_create_address_from_nonce := %s |}.\n",
+		CoqBool(msgSigner), preShape, CoqBool(after), CoqBool(createAddr))
 }
 
 // loaderShape looks at every place where Keeper.GetAccount (and the helpers it calls, 3 levels) gives the Nonce
